@@ -2051,3 +2051,81 @@ Section ExampleNoisy.
     eexists. eexists. split; [reflexivity|]. reflexivity.
   Qed.
 End ExampleNoisy.
+
+(* Part 12: a second instance of the hypotheses of [reck_map_reproduces_partial], taking the
+   generic (arctan / angle) branch: the 2 x 2 swap. *)
+Section ExampleSwap2.
+  Open Scope R_scope.
+  Variables (ints : Z -> nat -> Z) (unif norm : rsrc -> nat -> R).
+  Notation Cr := (cplx rops).
+  Let E := renv (/ 4) (/ 4) 0 ints unif norm.
+  Definition swap2 : @mat (R * R) := fun i j => if Nat.eqb (i + j) 1 then (1, 0) else (0, 0).
+  Let U' : @mat (R * R) := tab Cr 2 (flip 2 swap2).
+
+  Lemma swap2_unitary : unitary Cr 2 swap2.
+  Proof.
+    split; intros i j Hi Hj; destruct i as [|[|i]], j as [|[|j]]; try lia;
+      unfold mmul, madj, swap2, mid; simpl; unfold cmul, cadd, cconj; simpl; f_equal; ring.
+  Qed.
+
+  Lemma ex_sw_U' i j : (i < 2)%nat -> (j < 2)%nat -> U' i j = swap2 i j.
+  Proof.
+    intros Hi Hj. unfold U'. rewrite tab_spec by lia. unfold flip.
+    destruct i as [|[|i]], j as [|[|j]]; try lia; reflexivity.
+  Qed.
+
+  Lemma cabsR_0 : cabsR (0, 0) = 0.
+  Proof. unfold cabsR. simpl. replace (0 * 0 + 0 * 0) with 0 by ring. apply sqrt_0. Qed.
+  Lemma cabsR_1 : cabsR (1, 0) = 1.
+  Proof. unfold cabsR. simpl. replace (1 * 1 + 0 * 0) with 1 by ring. apply sqrt_1. Qed.
+  Lemma angle_ok_0 a : angle_ok (0, 0) a.
+  Proof. unfold angle_ok. rewrite cabsR_0. f_equal; ring. Qed.
+  Lemma angle_ok_mi : angle_ok (0, -1) (- (PI / 2)).
+  Proof.
+    unfold angle_ok, cabsR. simpl. rewrite cos_neg, sin_neg, cos_PI2, sin_PI2.
+    replace (0 * 0 + -1 * -1) with 1 by ring. rewrite sqrt_1. f_equal; ring.
+  Qed.
+
+  Theorem example_swap2 :
+    let ans : nat -> R * R := fun _ => (0, 0) in
+    let endo : nat -> R := fun _ => - (PI / 2) in
+    unitary Cr 2 swap2 /\
+    steps_ok (/ 4) (/ 4) 0 ints unif norm 2 ans (reck_steps 2) 0%nat U' /\
+    (forall a, (a < 2)%nat ->
+       angle_ok (snd (decomp_loop rops E 2 ans (reck_steps 2) 0%nat U') a a) (endo a)) /\
+    (* the generic branch is the one taken *)
+    map (fun r => nr_small r) (fst (decomp_loop rops E 2 ans (reck_steps 2) 0%nat U')) = [false].
+  Proof.
+    intros ans endo.
+    assert (H10 : U' 1%nat 0%nat = (1, 0)) by (rewrite ex_sw_U' by lia; reflexivity).
+    assert (H11 : U' 1%nat 1%nat = (0, 0)) by (rewrite ex_sw_U' by lia; reflexivity).
+    assert (Hn1 : cnorm2 rops (1, 0) = 1) by (unfold cnorm2; simpl; ring).
+    assert (Hbig : kltb rops (cnorm2 rops (U' 1%nat 0%nat)) (/ 4) = false).
+    { rewrite H10, Hn1. apply kltb_false. lra. }
+    split; [exact swap2_unitary|]. split; [|split].
+    - change (reck_steps 2) with [(0%nat, 0%nat)]. cbn [steps_ok]. split; [|exact Logic.I].
+      right. change (2 - 1 - 0)%nat with 1%nat. rewrite H10, H11, Hn1. split; [lra|].
+      exists 0, 0. split; [apply angle_ok_1|]. split; [apply angle_ok_0|].
+      unfold ans. rewrite cabsR_0, cabsR_1. f_equal; [|ring].
+      replace (0 / 1) with 0 by field. rewrite atan_0. ring.
+    - intros a Ha. change (reck_steps 2) with [(0%nat, 0%nat)].
+      rewrite (decomp_loop_cons (/ 4) (/ 4) 0 ints unif norm). cbn [decomp_loop snd].
+      unfold loop_step, null_answer. change (e_eps2 (renv (/ 4) (/ 4) 0 ints unif norm)) with (/ 4).
+      change (2 - 1 - 0)%nat with 1%nat. rewrite Hbig. cbn [fst snd ans].
+      rewrite (bs_matrix_R (/ 4) (/ 4) 0 ints unif norm).
+      assert (Hh : half rops 0 = 0) by (unfold half, two; simpl; field).
+      rewrite Hh, cos_0, sin_0, cisR_0.
+      unfold null_update. rewrite tab_spec by lia. unfold bs_amp.
+      rewrite (null_update_entry (o:=Cr)) by lia.
+      destruct a as [|[|a]]; [| |lia].
+      + cbn [Nat.eqb]. rewrite !ex_sw_U' by lia.
+        match goal with |- angle_ok ?z _ => replace z with ((0, -1) : R * R) end; [apply angle_ok_mi|].
+        unfold cre, gph, swap2. simpl. unfold cmul, cadd, cconj, copp. simpl. f_equal; ring.
+      + cbn [Nat.eqb]. rewrite !ex_sw_U' by lia.
+        match goal with |- angle_ok ?z _ => replace z with ((0, -1) : R * R) end; [apply angle_ok_mi|].
+        unfold cre, gph, swap2. simpl. unfold cmul, cadd, cconj, copp. simpl. f_equal; ring.
+    - change (reck_steps 2) with [(0%nat, 0%nat)]. cbn [decomp_loop fst map nr_small].
+      unfold null_answer. change (e_eps2 E) with (/ 4). change (2 - 1 - 0)%nat with 1%nat.
+      rewrite Hbig. reflexivity.
+  Qed.
+End ExampleSwap2.
